@@ -512,7 +512,8 @@ def g_scalar(src):
     return src.bool()
 
 
-KEYS = ["a", "b", "c", "k", "key one", "é"]
+# (entry names written as strings are kept as they are: "a  b", "a - b" and "a-b" are three keys, a tab is not a blank)
+KEYS = ["a", "b", "c", "k", "key one", "é", "a  b", "a b", "a - b", "a-b", "x\ty", "c / d"]
 
 
 def g_ctx(src, depth=1):
